@@ -227,6 +227,41 @@ def mixed_scenarios():
     return out
 
 
+LEVEL_VARS = ["a0", "b0", "a1", "b1", "own"]
+LEVEL_CHAINS = [("fn", "fn"), ("lambda", "lambda"), ("method", "lambda")]
+
+
+def levels_scenario(chain, seq):
+    """three nested functions (outer > mid > inner; mid and inner of the given kinds): inner mentions variables of outer (a0, b0: captures
+    of captures), of mid (a1, b1: direct captures) and its own local in every order; seq = ((variable, 'r'|'w'|'i'), ...): read into the result
+    list, overwrite with a constant, increment. Capture indices are handed out in order of first mention, so the order and the repeats matter."""
+    stmts = [["let", "own", N(50)], ["let", "seen", ["list", []]]]
+    for k, (v, act) in enumerate(seq):
+        if act == "r":
+            stmts.append(["expr", inv(V("seen"), "push", V(v))])
+        elif act == "w":
+            stmts.append(["expr", ["assign", v, N(900 + k)]])
+        else:
+            stmts.append(["expr", ["assign", v, ["bin", "+", V(v), N(1)]]])
+    stmts.append(["return", ["list", [V("seen")] + [V(v) for v in LEVEL_VARS]]])
+    mk, ik = chain
+    if ik == "lambda":
+        inner_decl = ["let", "inner", lam([], stmts)]
+    else:
+        inner_decl = ["fn", "inner", [], stmts]
+    mid_body = [["let", "a1", N(30)], ["let", "b1", N(40)], inner_decl, ["print", [S("i1"), call("inner")]], ["print", [S("i2"), call("inner")]],
+                ["print", [S("mid"), V("a1"), V("b1"), V("pm")]], ["return", V("inner")]]
+    if mk == "lambda":
+        mid_decl, mid_call = ["let", "mid", lam(["pm"], mid_body)], call("mid", N(7))
+    elif mk == "method":
+        mid_decl, mid_call = ["class", "M", None, [("method", "run", ["pm"], mid_body)]], inv(call("M"), "run", N(7))
+    else:
+        mid_decl, mid_call = ["fn", "mid", ["pm"], mid_body], call("mid", N(7))
+    outer = ["fn", "outer", ["po"], [["let", "a0", N(10)], ["let", "b0", N(20)], mid_decl, ["let", "k", mid_call], ["print", [S("outer"), V("a0"), V("b0"), V("po")]],
+                                    ["print", [S("i3"), call("k")]], ["print", [S("outer2"), V("a0"), V("b0")]], ["return", V("k")]]]
+    return [outer, ["let", "k1", call("outer", N(1))], ["let", "k2", call("outer", N(2))], ["print", [S("k1"), call("k1")]], ["print", [S("k2"), call("k2")]]]
+
+
 class C02(Check):
     id = "C02"
     level = "exploration"
@@ -260,14 +295,23 @@ class C02(Check):
             yield s
         for s in mixed_scenarios():
             yield s
+        syms = [(v, a) for v in LEVEL_VARS for a in ("r", "w", "i")]
+        for chain in LEVEL_CHAINS:
+            for n in range(1, (4 if th else 3) + 1):
+                for seq in itertools.product(syms, repeat=n):
+                    if n == 4 and len({v for v, _ in seq}) > 3:
+                        continue
+                    yield ("levels", chain, seq)
 
     def ast(self, spec):
         if spec[0] == "cell":
             return cell_scenario(spec[1], spec[2], spec[3], spec[4])
+        if spec[0] == "levels":
+            return levels_scenario(spec[1], spec[2])
         return spec[-1]
 
     def describe(self, spec):
-        return "%s | %s" % (spec[:-1] if spec[0] != "cell" else spec, L.render(self.ast(spec))[0].replace("\n", " ")[:400])
+        return "%s | %s" % (spec[:-1] if spec[0] not in ("cell", "levels") else spec, L.render(self.ast(spec))[0].replace("\n", " ")[:400])
 
     def build(self, spec):
         stmts = self.ast(spec)
